@@ -46,7 +46,13 @@ type scenario struct {
 }
 
 func writeErrOf(k int) error {
-	switch k % 4 {
+	switch k % 7 {
+	case 4:
+		return &net.OpError{Op: "write", Net: "udp", Err: os.NewSyscallError("sendto", syscall.EADDRNOTAVAIL)}
+	case 5:
+		return &net.OpError{Op: "write", Net: "udp", Err: os.NewSyscallError("sendto", syscall.ENETUNREACH)}
+	case 6:
+		return &net.OpError{Op: "write", Net: "udp", Err: os.NewSyscallError("sendto", syscall.EHOSTUNREACH)}
 	case 0:
 		return &net.OpError{Op: "write", Net: "udp", Err: os.ErrDeadlineExceeded}
 	case 1:
